@@ -49,8 +49,8 @@ def run(ctx):
     behs = tc.gen(ctx, "Gen_TcpConn_C06.cfg", 1500 if q else 12000, seed=ctx.seed)
     probes = [b for b in behs if tc.features(b)["hs"][0] != "valid" or tc.features(b)["probe"]]
     post = [b for b in behs if tc.features(b)["hs"][0] == "valid" and not tc.features(b)["probe"]]
-    pick = tc.select(probes, 140 if q else 1200, lambda f: (f["hs"], min(f["ntok"], 4), f["ticks"] > 2), rng)
-    pick += tc.select(post, 40 if q else 400, lambda f: (f["bad"], f["dial"], f["ticks"] > 2), rng)
+    pick = tc.select(probes, 110 if q else 1200, lambda f: (f["hs"], min(f["ntok"], 4), f["ticks"] > 2), rng)
+    pick += tc.select(post, 30 if q else 400, lambda f: (f["bad"], f["dial"], f["ticks"] > 2), rng)
     # key-list size 0 as well: a service without keys must absorb probes like any other
     import copy
     for b in [b for b in pick if tc.features(b)["hs"][0] == "garbage"][:12 if q else 100]:
@@ -80,7 +80,7 @@ def run(ctx):
     #     chunk, polite target): the client holds the connection open for >= 300 ms
     ib = tc.gen(ctx, "Gen_TcpConn_C06Inner.cfg", 600 if q else 5000, seed=ctx.seed + 1)
     ib = [b for b in ib if tc.features(b)["bad"]]
-    ipick = tc.select(ib, 40 if q else 400, lambda f: (f["junk"], f["dial"], f["tfin"], f["cfin"]), rng)
+    ipick = tc.select(ib, 30 if q else 400, lambda f: (f["junk"], f["dial"], f["tfin"], f["cfin"]), rng)
     icases, _, _, _ = tc.run_family(ctx, "C06_", ipick, label="c06-invalid-authenticated", timeout_ms=5000, par=16)
     tc.mech_pass(ctx, icases, ipick, label="c06-invalid-authenticated")
     ctx.cov["distinct_nontrivial"] += len(ipick)
@@ -94,6 +94,18 @@ def run(ctx):
     tc.mech_pass(ctx, acases, apick, label="c06-invalid-after-target-finished")
     ctx.cov["distinct_nontrivial"] += len(apick)
     ipick = ipick + apick
+    # 2e. the listener is closed (accept reports net.ErrClosed, StreamServe cancels the context of its handlers, as at every
+    #     configuration reload) while a probe is being absorbed: still silent and open until the client closes or the timeout
+    sh = tc.gen(ctx, "Gen_TcpConn_C06Shutdown.cfg", 1500 if q else 8000, seed=ctx.seed + 4)
+    spick = tc.select([b for b in sh if tc.features(b)["lclose"] and tc.features(b)["probe"]], 30 if q else 300,
+                      lambda f: (f["hs"], min(f["ntok"], 3), f["ticks"] > 2), rng)
+    if len(spick) < 15:
+        raise vlib.Inconclusive("too few listener-closes-during-absorb behaviours (%d)" % len(spick))
+    scases, _, _, shung = tc.run_family(ctx, "C06_", spick, label="c06-listener-closes-during-absorb", par=8, **tc.TIMED)
+    if shung:
+        raise vlib.Inconclusive("handlers still running after the script ended: %s" % ctx.notes[-1])
+    tc.mech_pass(ctx, scases, spick, label="c06-listener-closes-during-absorb")
+    ctx.cov["distinct_nontrivial"] += len(spick)
     ctx.cov["self_test_rejected"] = tc.self_test(ctx, cases, tc.REAL_SLACK)
 
     # 3. virtual time
